@@ -65,7 +65,7 @@ STD_ENUMS = {
     'ControlFlow': ['Continue', 'Break'], 'Ordering': ['Less', 'Equal', 'Greater'],
     'Cow': ['Borrowed', 'Owned'], 'Entry': ['Occupied', 'Vacant'], 'Bound': ['Included', 'Excluded', 'Unbounded'],
     'EitherOrBoth': ['Both', 'Left', 'Right'], 'Component': ['Prefix', 'RootDir', 'CurDir', 'ParentDir', 'Normal'],
-    'ErrorKind': ['NotFound', 'PermissionDenied', 'ConnectionRefused', 'ConnectionReset', 'HostUnreachable', 'NetworkUnreachable', 'ConnectionAborted', 'NotConnected', 'AddrInUse', 'AddrNotAvailable', 'NetworkDown', 'BrokenPipe', 'AlreadyExists', 'WouldBlock', 'NotADirectory', 'IsADirectory', 'DirectoryNotEmpty', 'ReadOnlyFilesystem', 'FilesystemLoop', 'StaleNetworkFileHandle', 'InvalidInput', 'InvalidData', 'TimedOut', 'WriteZero', 'StorageFull', 'NotSeekable', 'QuotaExceeded', 'FileTooLarge', 'ResourceBusy', 'ExecutableFileBusy', 'Deadlock', 'CrossesDevices', 'TooManyLinks', 'InvalidFilename', 'ArgumentListTooLong', 'Interrupted', 'Unsupported', 'UnexpectedEof', 'OutOfMemory', 'InProgress', 'Other', 'Uncategorized'], 'Either': ['Left', 'Right'], 'AssertKind': ['Eq', 'Ne', 'Match'],
+    'ErrorKind': ['NotFound', 'PermissionDenied', 'ConnectionRefused', 'ConnectionReset', 'HostUnreachable', 'NetworkUnreachable', 'ConnectionAborted', 'NotConnected', 'AddrInUse', 'AddrNotAvailable', 'NetworkDown', 'BrokenPipe', 'AlreadyExists', 'WouldBlock', 'NotADirectory', 'IsADirectory', 'DirectoryNotEmpty', 'ReadOnlyFilesystem', 'FilesystemLoop', 'StaleNetworkFileHandle', 'InvalidInput', 'InvalidData', 'TimedOut', 'WriteZero', 'StorageFull', 'NotSeekable', 'QuotaExceeded', 'FileTooLarge', 'ResourceBusy', 'ExecutableFileBusy', 'Deadlock', 'CrossesDevices', 'TooManyLinks', 'InvalidFilename', 'ArgumentListTooLong', 'Interrupted', 'Unsupported', 'UnexpectedEof', 'OutOfMemory', 'InProgress', 'Other', 'Uncategorized'], 'Either': ['Left', 'Right'], 'AssertKind': ['Eq', 'Ne', 'Match'], 'MinMaxResult': ['NoElements', 'OneElement', 'MinMax'],
 }
 ORDERING_DISCR = {'Less': -1, 'Equal': 0, 'Greater': 1}
 
